@@ -5,6 +5,7 @@ package factory
 import (
 	"fmt"
 	"reflect"
+	"slices"
 
 	"github.com/nextmv-io/nextroute"
 	"github.com/nextmv-io/nextroute/common"
@@ -348,7 +349,15 @@ func addMaximumConstraint(
 ) {
 	requirements := map[string]nextroute.StopExpression{}
 	limits := map[string]nextroute.VehicleTypeValueExpression{}
+	// The constraints are asked in the order in which they are added and the
+	// first one that is violated decides the hint given to the search: the
+	// order must not be the iteration order of a map.
+	sortedNames := make([]string, 0, len(names))
 	for name := range names {
+		sortedNames = append(sortedNames, name)
+	}
+	slices.Sort(sortedNames)
+	for _, name := range sortedNames {
 		requirement := nextroute.NewStopExpression(name, 0.)
 		limit := nextroute.NewVehicleTypeValueExpression(name, 0.)
 		maximum, err := nextroute.NewMaximum(requirement, limit)
